@@ -224,6 +224,64 @@ def run(rec):
                         vv = np.transpose(v, seg + other).reshape(v.shape[seg[0]], v.shape[seg[1]], -1)
                         exp = np.einsum('abx,cdx->abcd', vv, vv.conj())
                         rec.check(np.allclose(r, exp, atol=tol), 'get_rho_segment:value', f'segment {seg}', dict(inp, segment=seg))
+                # --- entropies of small regions, mutual information, entanglement spectrum, products of neighbouring operators
+                def _S_region(region):
+                    other = [k for k in range(L) if k not in region]
+                    m = np.transpose(v, list(region) + other).reshape(int(np.prod([v.shape[k] for k in region])), -1)
+                    sv = np.linalg.svd(m, compute_uv=False)
+                    pr = sv[sv > 1e-14] ** 2
+                    return float(-np.sum(pr * np.log(pr)))
+                if L >= 3:
+                    ok, se = rec.guarded('entanglement_entropy_segment:exception', lambda: psi.entanglement_entropy_segment([0, 1]), inp)
+                    if ok:
+                        exp = [_S_region([i, i + 1]) for i in range(L - 1)]
+                        rec.check(np.allclose(se, exp, atol=1e-7), 'entanglement_entropy_segment([0,1]):value', f'{se} vs dense {exp}', inp)
+                    ok, se = rec.guarded('entanglement_entropy_segment2:exception', lambda: psi.entanglement_entropy_segment2([0, 2]), inp)
+                    if ok:
+                        rec.check(abs(se - _S_region([0, 2])) < 1e-7, 'entanglement_entropy_segment2([0,2]):value', f'{se} vs dense {_S_region([0, 2])}', inp)
+                    ok, res = rec.guarded('mutinf_two_site:exception', lambda: psi.mutinf_two_site(), inp)
+                    if ok:
+                        coords, mi = res
+                        exp = [_S_region([int(i)]) + _S_region([int(j)]) - _S_region([int(i), int(j)]) for i, j in coords]
+                        rec.check(len(coords) == L * (L - 1) // 2 and np.allclose(mi, exp, atol=1e-7), 'mutinf_two_site:value', f'{np.asarray(mi)} vs dense {exp}', inp)
+                ok, spec = rec.guarded('entanglement_spectrum:exception', lambda: psi.entanglement_spectrum(), inp)
+                if ok:
+                    good = len(spec) == L - 1
+                    for cut in range(1, L):
+                        sv = np.sort(mpsgen.schmidt_values(v / np.linalg.norm(v), cut))[::-1]
+                        xi = np.sort(np.asarray(spec[cut - 1]))
+                        xi = xi[xi < 50]
+                        good = good and len(xi) == len(sv) and np.allclose(np.exp(-xi / 2.)[::1], np.sort(sv)[::-1], atol=1e-7)
+                    rec.check(good, 'entanglement_spectrum:value', 'S_i^2 = exp(-xi_i) does not reproduce the dense Schmidt values', inp)
+                if psi.chinfo.qnumber > 0 and L >= 2:
+                    b = int(rng.integers(1, L))
+                    ok, res = rec.guarded('probability_per_charge:exception', lambda: psi.probability_per_charge(b), inp)
+                    if ok:
+                        cv, pr = res
+                        qs_ = [x.leg.to_qflat() * x.leg.qconj for x in sites[:b]]
+                        dist = {}
+                        pw = np.abs(v) ** 2 / np.sum(np.abs(v) ** 2)
+                        it = np.nditer(pw, flags=['multi_index'])
+                        for x in it:
+                            if float(x) > 0:
+                                q = tuple(psi.chinfo.make_valid(sum(qs_[k][it.multi_index[k]] for k in range(b))).tolist())
+                                dist[q] = dist.get(q, 0.) + float(x)
+                        got = {}
+                        for c_, p_ in zip(cv, pr):
+                            if p_ > 1e-12:
+                                got[tuple(psi.chinfo.make_valid(np.asarray(c_)).tolist())] = got.get(tuple(psi.chinfo.make_valid(np.asarray(c_)).tolist()), 0.) + float(p_)
+                        dist = {k: x for k, x in dist.items() if x > 1e-12}
+                        # (the charges on the bond are defined up to the gauge of the left boundary: compare the probabilities as multisets)
+                        rec.check(np.allclose(sorted(got.values()), sorted(dist.values()), atol=1e-8) and abs(sum(pr) - 1) < 1e-8, 'probability_per_charge:value',
+                                  f'bond {b}: {sorted(got.values())} vs dense {sorted(dist.values())}', inp)
+                bos2 = [n for n in sorted(s0.opnames) if n not in ('Id', 'JW') and not s0.op_needs_JW(n)][:3]
+                if L >= 3 and bos2:
+                    names = [str(rng.choice(bos2)) for _ in range(3)]
+                    i0 = int(rng.integers(0, L - 2))
+                    ok, ev = rec.guarded('expectation_value_multi_sites:exception', lambda: psi.expectation_value_multi_sites(names, i0), dict(inp, ops=names))
+                    if ok:
+                        exp = mpsgen.expect_dense(v, sites, [(n, i0 + k) for k, n in enumerate(names)])
+                        rec.check(abs(ev - exp) < tol, 'expectation_value_multi_sites:value', f'{names} at {i0}: {ev} vs dense {exp}', dict(inp, ops=names))
                 # --- charge statistics at a bond
                 if psi.chinfo.qnumber > 0 and L >= 2:
                     b = int(rng.integers(1, L))
